@@ -80,6 +80,15 @@ func CheckStorageHealth(storage SlabStorage, expectedNumberOfRootSlabs int) (map
 		}
 	}
 
+	// Every referenced slab must be among the iterated slabs.  A slab iterator can skip a
+	// referenced slab without reporting it (e.g. PersistentSlabStorage skips a slab that is
+	// removed in deltas or cached as removed), and the remaining slabs can still look consistent.
+	for childID, parentID := range parentOf {
+		if _, ok := slabs[childID]; !ok {
+			return nil, NewSlabNotFoundErrorf(childID, "slab referenced by %s not found during storage health check", parentID)
+		}
+	}
+
 	rootsMap := make(map[SlabID]struct{})
 	visited := make(map[SlabID]struct{})
 	var id SlabID
